@@ -318,6 +318,18 @@ def b_int(self, a, kw):
 _STR_OF_INT = {}
 
 
+@H('float')
+def b_float(self, a, kw):
+  v = self.deref(a[0])
+  if isinstance(v, Lit) and v.py in ('inf', '-inf'):
+    hook = getattr(self.spec, 'infinity', None)
+    if hook is None:
+      raise OutsideSubset("float('inf'): the sidecar must say how large infinity has to be (spec.infinity)")
+    r = hook(self)
+    return r if v.py == 'inf' else SV(REAL, -r.t)
+  return self.coerce(v, REAL)
+
+
 @H('str')
 def b_str(self, a, kw):
   v = self.deref(a[0])
@@ -371,6 +383,11 @@ def b_sorted(self, a, kw):
   self.assume(S.len(r) == n)
   self.assume(qforall([i], z3.Implies(inr(i), z3.And(inr(pi(i)), pinv(pi(i)) == i, S.get(r, i) == S.get(src.t, pi(i)))), patterns=[S.get(r, i)]))
   self.assume(qforall([j], z3.Implies(inr(j), z3.And(inr(pinv(j)), pi(pinv(j)) == j)), patterns=[pinv(j)]))
+  # every source element occurs in the result (trigger on the source term)
+  self.assume(qforall([j], z3.Implies(inr(j), z3.And(inr(pinv(j)), S.get(r, pinv(j)) == S.get(src.t, j))), patterns=[S.get(src.t, j)]))
+  # derived: the last element is a maximum, the first a minimum
+  self.assume(qforall([j], z3.Implies(inr(j), z3.And(z3.Not(lt(S.get(r, n - 1), S.get(src.t, j))), z3.Not(lt(S.get(src.t, j), S.get(r, 0))))),
+                      patterns=[S.get(src.t, j)]))
   self.assume(qforall([i, j], z3.Implies(z3.And(inr(i), inr(j), i < j), z3.Not(lt(S.get(r, j), S.get(r, i)))),
                       patterns=[z3.MultiPattern(S.get(r, i), S.get(r, j))]))
   return self.new_box(SV(S, r))
@@ -444,6 +461,16 @@ def b_ncalls(self, a, kw):
   return len(self.ghost.get('calls:' + a[0].py, []))
 
 
+@H('call_order')
+def b_call_order(self, a, kw):
+  """spec-level: position of the i-th call of a recorded-effect procedure in the global effect order"""
+  i = a[1] if len(a) > 1 else 0
+  k = 'order:%s:%d' % (a[0].py, i)
+  if k not in self.ghost:
+    raise OutsideSubset(f'call_order({a[0].py!r}, {i}): no such call on this path')
+  return self.ghost[k]
+
+
 @H('call_args')
 def b_call_args(self, a, kw):
   """spec-level: argument tuple of the i-th recorded call"""
@@ -453,6 +480,12 @@ def b_call_args(self, a, kw):
     # no such call on this path: unconstrained placeholder so that `ncalls(...) == k and ...` stays evaluable
     raise OutsideSubset(f'call_args({a[0].py!r}, {i}): no such call on this path; guard with implies(ncalls(..) > i, ..)')
   return calls[i]
+
+
+@H('index_of')
+def b_index_of(self, a, kw):
+  """spec-level: first index of x in seq"""
+  return seq_method(self, None, self.deref(a[0]), 'index', [a[1]])
 
 
 @H('other')
@@ -491,9 +524,8 @@ GLOBAL_BINDINGS.update({
   'bool_t': TypeTag('bool'), 'int_t': TypeTag('int'), 'str_t': TypeTag('str'),
 })
 # builtin classes are both callable and usable in isinstance(...)
-for _n in ('bool', 'int', 'str', 'set', 'tuple', 'list', 'dict', 'frozenset'):
+for _n in ('bool', 'int', 'str', 'set', 'tuple', 'list', 'dict', 'frozenset', 'float'):
   GLOBAL_BINDINGS[_n].tagname = _n
-GLOBAL_BINDINGS['float'] = TypeTag('float')
 GLOBAL_BINDINGS['type'].tagname = 'type'
 
 
@@ -624,7 +656,16 @@ def seq_method(self, box, v, name, args):
     i = z3.Int(fresh_name('idx'))
     k = z3.Int(fresh_name('i'))
     ex = self.contains(v, x)
+    if self.spec_mode:
+      # total in specs: characterised only when the element occurs
+      fi = z3.Function('index_of!' + s.name, s.z3(), s.elem.z3(), z3.IntSort())
+      i = fi(v.t, x.t)
+      self.assume(z3.Implies(ex, z3.And(i >= 0, i < n, self.sort_eq(s.elem, s.get(v.t, i), x.t))))
+      self.assume(qforall([k], z3.Implies(z3.And(k >= 0, k < i), z3.Not(self.sort_eq(s.elem, s.get(v.t, k), x.t))), patterns=[s.get(v.t, k)]))
+      return SV(INT, i)
     self.oblige(ex, 'safety:index-of')
+    fi = z3.Function('index_of!' + s.name, s.z3(), s.elem.z3(), z3.IntSort())
+    i = fi(v.t, x.t)
     self.assume(z3.And(i >= 0, i < n, self.sort_eq(s.elem, s.get(v.t, i), x.t)))
     self.assume(qforall([k], z3.Implies(z3.And(k >= 0, k < i), z3.Not(self.sort_eq(s.elem, s.get(v.t, k), x.t))), patterns=[s.get(v.t, k)]))
     return SV(INT, i)
